@@ -47,7 +47,8 @@ def corruptions(numtype, shape):
     for name, content in [('missing', None), ('empty', b''), ('truncated-json', b'{"numtype": '),
                           ('json-list', b'[]'), ('json-number', b'3'), ('json-null', b'null'),
                           ('json-string', b'"int32"'), ('binary-garbage', b'\xff\xfe\x00{}'),
-                          ('trailing-garbage', 'APPEND:}}')]:
+                          ('trailing-garbage', 'APPEND:}}'), ('json-list-of-pairs', 'PAIRS:'),
+                          ('json-list-of-keys', 'KEYS:')]:
         out.append((f'descr-file:{name}', 'descriptor-file', ('file', content)))
     for key in ('numtype', 'byteorder', 'shape', 'arrayorder', 'darrversion'):
         out.append((f'{key}:removed', 'key-removed', ('key', key, SENTINEL)))
@@ -180,6 +181,11 @@ def apply(target, action):
             dj.unlink()
         elif isinstance(content, str) and content.startswith('APPEND:'):
             dj.write_bytes(dj.read_bytes() + content[7:].encode())
+        elif isinstance(content, str) and content.startswith('PAIRS:'):
+            # the same information, but as a JSON list of [key, value] pairs: not a dictionary
+            dj.write_text(json.dumps([[k_, v_] for k_, v_ in json.loads(dj.read_text()).items()]))
+        elif isinstance(content, str) and content.startswith('KEYS:'):
+            dj.write_text(json.dumps(sorted(json.loads(dj.read_text()))))
         else:
             dj.write_bytes(content)
     elif action[0] == 'key':
